@@ -180,7 +180,8 @@ impl Dbg {
 #[derive(Clone, Debug, PartialEq)]
 enum TP { Const(T), Var(String), Bn(String), Trip(Box<[TP; 3]>) }
 #[derive(Clone, Debug)]
-enum NP { Const(String), Var(String) }
+enum NP { Const(String), Var(String), /// a graph name that is not an IRI: only produced by the oracle's substitution (18.6)
+    Term(T) }
 #[derive(Clone, Debug)]
 enum Ex {
     Var(String), Const(T), Bound(String), Not(Box<Ex>), Or(Box<Ex>, Box<Ex>), And(Box<Ex>, Box<Ex>),
@@ -333,6 +334,7 @@ fn c_pat(p: &Pat) -> Option<String> {
         Pat::Union(l, r) => format!("(Union {} {})", c_pat(l)?, c_pat(r)?),
         Pat::Graph(NP::Const(i), p) => format!("(Graph (NConst {}) {})", coq_str(i), c_pat(p)?),
         Pat::Graph(NP::Var(v), p) => format!("(Graph (NVar {}) {})", coq_str(v), c_pat(p)?),
+        Pat::Graph(NP::Term(_), _) => return None,
         Pat::Extend(i, v, e) => format!("(cExtend {} {} {})", c_pat(i)?, coq_str(v), c_ex(e)?),
         Pat::OrderBy(i, es) => format!("(cOrderBy {} {}%nat)", c_pat(i)?, es.len()),
         Pat::Project(i, vs) => format!("(Project {} {})", c_pat(i)?, coq_list(vs.iter().map(|v| coq_str(v)))),
@@ -349,6 +351,46 @@ fn c_query(q: &Qy) -> Option<String> {
         Qy::Construct => "QConstruct".into(),
         Qy::Describe => "QDescribe".into(),
     })
+}
+
+// ---------- the same for queries with EXISTS: coq/C13/Exists.v (wexpr / wpat, mutually recursive) ----------
+fn w_ex(e: &Ex) -> Option<String> {
+    Some(match e {
+        Ex::Var(v) => format!("(WVar {})", coq_str(v)),
+        Ex::Const(t) => format!("(WConst {})", t.coq()),
+        Ex::Bound(v) => format!("(WBound {})", coq_str(v)),
+        Ex::Not(a) => format!("(WNot {})", w_ex(a)?),
+        Ex::Or(a, b) => format!("(WOr {} {})", w_ex(a)?, w_ex(b)?),
+        Ex::And(a, b) => format!("(WAnd {} {})", w_ex(a)?, w_ex(b)?),
+        Ex::Bin(op, a, b) => format!("(W{op} {} {})", w_ex(a)?, w_ex(b)?),
+        Ex::Un(op, a) => format!("(W{op} {})", w_ex(a)?),
+        Ex::Exists(p) => format!("(WExists {})", w_pat(p)?),
+        Ex::Other(_) => return None,
+    })
+}
+fn w_pat(p: &Pat) -> Option<String> {
+    Some(match p {
+        Pat::Bgp(ps) => format!("(WBgp {})", coq_list(ps.iter().map(|t| format!("({}, {}, {})", c_tp(&t[0]), c_tp(&t[1]), c_tp(&t[2]))))),
+        Pat::Filter(e, i) => format!("(WFilter {} {})", w_ex(e)?, w_pat(i)?),
+        Pat::Union(l, r) => format!("(WUnion {} {})", w_pat(l)?, w_pat(r)?),
+        Pat::Graph(NP::Const(i), p) => format!("(WGraph (NConst {}) {})", coq_str(i), w_pat(p)?),
+        Pat::Graph(NP::Var(v), p) => format!("(WGraph (NVar {}) {})", coq_str(v), w_pat(p)?),
+        Pat::Graph(NP::Term(_), _) => return None,
+        Pat::Extend(i, v, e) => format!("(WExtend {} {} {})", w_pat(i)?, coq_str(v), w_ex(e)?),
+        Pat::OrderBy(i, es) => format!("(WOrderBy {} {}%nat)", w_pat(i)?, es.len()),
+        Pat::Project(i, vs) => format!("(WProject {} {})", w_pat(i)?, coq_list(vs.iter().map(|v| coq_str(v)))),
+        Pat::Distinct(i) => format!("(WDistinct {})", w_pat(i)?),
+        Pat::Slice(i, s, l) => format!("(WSlice {} {s}%nat {})", w_pat(i)?, coq_opt(l.map(|n| format!("{n}%nat")))),
+        Pat::Unsup(k) => format!("(WUnsup {k})"),
+    })
+}
+fn w_query(q: &Qy) -> Option<String> {
+    let ds = |b: &bool| if *b { "(Some ([], Some []))" } else { "None" };
+    match q {
+        Qy::Select(d, p) => Some(format!("(WSelect {} {})", ds(d), w_pat(p)?)),
+        Qy::Ask(d, p) => Some(format!("(WAsk {} {})", ds(d), w_pat(p)?)),
+        _ => None,
+    }
 }
 
 // ------------------------------------------------------------------------------------------
@@ -526,14 +568,63 @@ fn ev(e: &Ex, mu: &Mu, ds: &Ds, g: &Option<T>) -> Result<Result<T, ()>, OErr> {
             }
         }
         // 18.6 Exists: true iff eval(D(G), substitute(P, mu)) is non-empty, G the ACTIVE graph.  For patterns made of
-        // BGPs, UNION and GRAPH only, substitution = keeping the solutions of P that are compatible with mu
+        // BGPs, UNION and GRAPH only, substitution = keeping the solutions of P that are compatible with mu (first reading,
+        // kept from the first version of this oracle); in general (FILTER, BIND, nested EXISTS, GRAPH ?g inside the group,
+        // all of which may mention variables of mu that occur in no triple pattern) the substitution is carried out
         Ex::Exists(p) => {
             fn simple(p: &Pat) -> bool { match p { Pat::Bgp(_) => true, Pat::Union(l, r) => simple(l) && simple(r), Pat::Graph(_, i) => simple(i), _ => false } }
-            if !simple(p) { return Err(OErr::Undetermined("EXISTS over a pattern with FILTER/BIND/...".into())) }
-            let sols = eval(p, ds, g)?;
-            Ok(tbool(sols.iter().any(|nu| nu.iter().all(|(v, t)| mu.get(v).map_or(true, |x| x == t)))))
+            let by_substitution = || -> Result<bool, OErr> { let q = subst_pat(p, mu)?; Ok(!eval(&q, ds, g)?.is_empty()) };
+            if simple(p) {
+                let sols = eval(p, ds, g)?;
+                let compatible = sols.iter().any(|nu| nu.iter().all(|(v, t)| mu.get(v).map_or(true, |x| x == t)));
+                if by_substitution()? != compatible { return Err(OErr::Undetermined("ORACLE-SELF-CHECK: the two readings of EXISTS differ".into())) }
+                Ok(tbool(compatible))
+            } else { Ok(tbool(by_substitution()?)) }
         }
         Ex::Other(n) => return Err(OErr::Undetermined(format!("expression {n}"))),
+    })
+}
+/// substitute(pattern, mu) of 18.6: every variable of dom(mu) is replaced by its value EVERYWHERE in the pattern -- triple
+/// patterns (also inside quoted triple patterns), the name of GRAPH, FILTER / BIND / ORDER BY expressions, nested EXISTS.
+/// Left undetermined: BIND to a variable of dom(mu) (BIND(e AS <constant>) is not a pattern) and sub-selects (the
+/// Recommendation's substitute ignores the scope of projected-away variables; errata query-20 ff.)
+fn subst_tp(p: &TP, mu: &Mu) -> TP {
+    match p {
+        TP::Var(v) => match mu.get(v) { Some(t) => TP::Const(t.clone()), None => p.clone() },
+        TP::Trip(b) => TP::Trip(Box::new([subst_tp(&b[0], mu), subst_tp(&b[1], mu), subst_tp(&b[2], mu)])),
+        _ => p.clone(),
+    }
+}
+thread_local! { static BGP_ONLY_SUBSTITUTION: std::cell::Cell<bool> = std::cell::Cell::new(false); }
+fn subst_ex(e: &Ex, mu: &Mu) -> Result<Ex, OErr> {
+    // measuring device (never used for a verdict): a WRONG reading of 18.6 that substitutes in triple patterns only;
+    // a case whose answer changes under it is one that depends on outer variables reaching FILTER / BIND / nested EXISTS
+    if BGP_ONLY_SUBSTITUTION.with(|f| f.get()) { return Ok(e.clone()) }
+    let b = |x: &Ex| -> Result<Box<Ex>, OErr> { Ok(Box::new(subst_ex(x, mu)?)) };
+    Ok(match e {
+        Ex::Var(v) => match mu.get(v) { Some(t) => Ex::Const(t.clone()), None => e.clone() },
+        // BOUND(?v) with ?v replaced by an RDF term: true (the variable IS bound in the solution the group is tested for)
+        Ex::Bound(v) => if mu.contains_key(v) { Ex::Const(tbool(true)) } else { e.clone() },
+        Ex::Const(_) | Ex::Other(_) => e.clone(),
+        Ex::Not(a) => Ex::Not(b(a)?), Ex::Or(x, y) => Ex::Or(b(x)?, b(y)?), Ex::And(x, y) => Ex::And(b(x)?, b(y)?),
+        Ex::Bin(op, x, y) => Ex::Bin(*op, b(x)?, b(y)?), Ex::Un(op, x) => Ex::Un(*op, b(x)?),
+        Ex::Exists(p) => Ex::Exists(Box::new(subst_pat(p, mu)?)),
+    })
+}
+fn subst_pat(p: &Pat, mu: &Mu) -> Result<Pat, OErr> {
+    let bp = |x: &Pat| -> Result<Box<Pat>, OErr> { Ok(Box::new(subst_pat(x, mu)?)) };
+    Ok(match p {
+        Pat::Bgp(ps) => Pat::Bgp(ps.iter().map(|t| [subst_tp(&t[0], mu), subst_tp(&t[1], mu), subst_tp(&t[2], mu)]).collect()),
+        Pat::Filter(e, i) => Pat::Filter(subst_ex(e, mu)?, bp(i)?),
+        Pat::Union(l, r) => Pat::Union(bp(l)?, bp(r)?),
+        Pat::Graph(NP::Var(v), i) => match mu.get(v) { Some(T::Iri(n)) => Pat::Graph(NP::Const(n.clone()), bp(i)?), Some(t) => Pat::Graph(NP::Term(t.clone()), bp(i)?), None => Pat::Graph(NP::Var(v.clone()), bp(i)?) },
+        Pat::Graph(n, i) => Pat::Graph(n.clone(), bp(i)?),
+        Pat::Extend(i, v, e) => { if mu.contains_key(v) { return Err(OErr::Undetermined("EXISTS: BIND inside the group to a variable bound outside".into())) } Pat::Extend(bp(i)?, v.clone(), subst_ex(e, mu)?) }
+        Pat::OrderBy(i, es) => Pat::OrderBy(bp(i)?, es.iter().map(|e| subst_ex(e, mu)).collect::<Result<_, _>>()?),
+        Pat::Distinct(i) => Pat::Distinct(bp(i)?),
+        Pat::Slice(i, s, l) => Pat::Slice(bp(i)?, *s, *l),
+        Pat::Project(..) => return Err(OErr::Undetermined("EXISTS over a sub-select".into())),
+        Pat::Unsup(k) => Pat::Unsup(*k),
     })
 }
 /// eval(D(G), pattern) as a multiset
@@ -547,6 +638,7 @@ fn eval(p: &Pat, ds: &Ds, g: &Option<T>) -> Result<Vec<Mu>, OErr> {
         }
         Pat::Union(l, r) => { let mut a = eval(l, ds, g)?; a.extend(eval(r, ds, g)?); a }
         Pat::Graph(NP::Const(i), inner) => { let n = ti(i); if ds.names().contains(&n) { eval(inner, ds, &Some(n))? } else { vec![] } }
+        Pat::Graph(NP::Term(n), inner) => { if ds.names().contains(n) { eval(inner, ds, &Some(n.clone()))? } else { vec![] } }
         Pat::Graph(NP::Var(v), inner) => {
             let mut out = vec![];
             for n in ds.names() {
@@ -748,15 +840,124 @@ impl<'a> Gen<'a> {
         let op = self.r.ps(&["<", "<=", ">", ">=", "=", "!="]);
         if k < 75 { return format!("?{v} {op} {}", self.int_const()) }
         if k < 85 { let w = self.var(); if !self.unsafe_vars.contains(&w) { return format!("?{v} {op} ?{w}") } }
-        if k < 93 { return format!("{} {op} {}", self.arith(v), self.int_const()) }
+        if k < 91 { return format!("{} {op} {}", self.arith(v), self.int_const()) }
+        if k < 97 { // computed operands on both sides: integers that leave the isize range and come back
+            let w = self.var(); let rhs = if self.unsafe_vars.contains(&w) || self.r.chance(1, 2) { self.int_const() } else if self.r.chance(1, 2) { format!("?{w}") } else { self.round_trip(&w) };
+            let lhs = self.round_trip(v);
+            return if self.r.chance(1, 2) { format!("{lhs} {op} {rhs}") } else { format!("{rhs} {op} {lhs}") }
+        }
         format!("?{v} {op} {}", self.int_const())
+    }
+    /// an arithmetic expression over ?v whose intermediate results leave the isize range and whose value is back inside
+    /// it whenever ?v is an ordinary integer (the value is ?v, -?v, |?v|, 0 or ?v + small)
+    fn round_trip(&mut self, v: &str) -> String {
+        let big = self.r.ps(&["9223372036854775807", "9223372036854775808", "18446744073709551616", "99999999999999999999", "1000000000000000000000000000000"]);
+        match self.r.below(9) {
+            0 => format!("((?{v} + {big}) - {big})"), 1 => format!("((?{v} - {big}) + {big})"), 2 => format!("(({big} + ?{v}) - {big})"),
+            3 => format!("(({big} * 0) + ?{v})"), 4 => format!("(-((-?{v}) - {big}) - {big})"), 5 => format!("(ABS(?{v} - {big}) - {big})"),
+            6 => format!("(({big} - ?{v}) - {big})"), 7 => format!("(({big} + {}) - {big})", self.r.ps(&["0", "1", "3", "5", "-4"])),
+            _ => format!("(-(-(?{v} - 9223372036854775807 - 2)) + 9223372036854775807 + 2)"),
+        }
     }
     fn arith(&mut self, v: &str) -> String {
         match self.r.below(6) { 0 => format!("?{v} + {}", self.int_const()), 1 => format!("?{v} - {}", self.int_const()), 2 => format!("?{v} * {}", self.r.ps(&["0", "2", "-1"])),
             3 => format!("-?{v}"), 4 => format!("ABS(?{v})"), _ => format!("+?{v}") }
     }
-    fn filter_expr(&mut self) -> String {
+    /// the variables the query mentions so far (those of the enclosing groups, seen from inside an EXISTS group)
+    fn known_vars(&self) -> Vec<String> { self.wit.iter().map(|(v, _)| v.clone()).collect::<BTreeSet<_>>().into_iter().collect() }
+    /// a variable of the ENCLOSING group (mostly bound there; sometimes one that is bound nowhere)
+    fn outer_var(&mut self, outer: &[String]) -> String {
+        // mostly a variable that stands for a term of the data (so that the solution it was generalised from binds it)
+        let witnessed: Vec<String> = self.wit.iter().filter(|(v, t)| *t != ti("tag:none") && outer.contains(v)).map(|(v, _)| v.clone()).collect();
+        if !witnessed.is_empty() && self.r.chance(3, 4) { return self.r.pick(&witnessed).clone() }
+        if outer.is_empty() || self.r.chance(1, 8) { self.r.ps(VARS).to_string() } else { self.r.pick(outer).clone() }
+    }
+    /// an expression that refers to the outer variable `ov` (and possibly to variables of the group it is written in);
+    /// about half of them are true in the solution the query was generalised from
+    fn correlated_expr(&mut self, ov: &str, outer: &[String]) -> String {
+        let witness = self.wit.iter().find(|(w, t)| w == ov && !has_bnode(t) && !matches!(t, T::Tr(_)) && *t != ti("tag:none")).map(|(_, t)| t.clone());
+        match self.r.below(16) {
+            0 | 1 | 2 => self.atom_expr(ov),
+            3 => { let w = self.var(); let op = self.r.ps(&["<", "<=", ">", ">=", "=", "!="]); if self.r.chance(1, 2) { format!("?{w} {op} ?{ov}") } else { format!("?{ov} {op} ?{w}") } }
+            4 => { let w = self.var(); format!("{}sameTerm(?{ov}, ?{w})", self.r.ps(&["", "!"])) }
+            5 => { let o2 = self.outer_var(outer); let (a, b) = (self.atom_expr(ov), self.atom_expr(&o2)); format!("({a}) {} ({b})", self.r.ps(&["||", "&&"])) }
+            6 | 7 => format!("{}BOUND(?{ov})", self.r.ps(&["", "", "!"])),
+            8 => format!("{}(?{ov}, ?{ov})", self.r.ps(&["sameTerm", "!sameTerm"])),
+            9 if !self.unsafe_vars.contains(ov) => format!("?{ov} {} ?{ov}", self.r.ps(&["=", "<=", "!=", "<"])),
+            _ => match witness { Some(t) => { let t = t.sparql(self.upper); match self.r.below(5) { 0 | 1 => format!("?{ov} = {t}"), 2 => format!("sameTerm(?{ov}, {t})"), 3 => format!("?{ov} != {t}"), _ => format!("!sameTerm(?{ov}, {t})") } }
+                                 None => format!("?{ov} {} {}", self.r.ps(&["=", "!=", "<", ">="]), self.int_const()) },
+        }
+    }
+    /// The body of an EXISTS group, evaluated on `graph`.  Besides its triple patterns (which share variables with the
+    /// enclosing group through `wit`) it has FILTERs, BINDs, nested EXISTS and GRAPH that refer to variables of the
+    /// ENCLOSING groups which need not occur in any triple pattern of the group: 18.6 substitutes them everywhere.
+    /// Never an operator outside the supported fragment (no join of groups): a group is `bgp [BIND] [FILTER]*`,
+    /// `GRAPH n { group }`, `{ group } UNION { group }`, each possibly followed by FILTERs.
+    fn exists_group(&mut self, depth: usize, graph: &Option<T>) -> String {
+        let outer = self.known_vars();
+        let ov = self.outer_var(&outer);
+        if self.r.chance(1, 2) {
+            // a FOCUSED group: a few triple patterns generalised from the data (sharing variables with the enclosing group, so
+            // that the solution the query was generalised from satisfies them) and ONE operator that reads an outer variable
+            // and is true in that solution -- the answer then depends on the outer variable reaching that operator
+            let witness = self.wit.iter().find(|(w, t)| *w == ov && !has_bnode(t) && !matches!(t, T::Tr(_)) && *t != ti("tag:none")).map(|(_, t)| t.sparql(self.upper));
+            let truth = |me: &mut Self, v: &str| -> String { match (&witness, me.r.below(6)) {
+                (Some(t), 0 | 1) => format!("?{v} = {t}"), (Some(t), 2) => format!("sameTerm(?{v}, {t})"), (_, 3) => format!("BOUND(?{v})"), (_, 4) => format!("sameTerm(?{v}, ?{v})"),
+                (Some(t), _) => format!("!(?{v} != {t})"), (None, _) => format!("BOUND(?{v}) || !BOUND(?{v})") } };
+            let n = *self.r.pick(&[0usize, 1, 1, 1, 2]);
+            self.bnwit.clear();
+            let bgp = (0..n).map(|_| self.triple_pat(graph)).collect::<Vec<_>>().join(" . ");
+            return match self.r.below(if depth < 2 { 7 } else { 5 }) {
+                0 | 1 | 2 => { let t = truth(self, &ov); format!("{bgp} FILTER({t})") }
+                3 => { self.fresh += 1; let k = format!("ek{}", self.fresh); if self.unsafe_vars.contains(&ov) { self.unsafe_vars.insert(k.clone()); } let t = truth(self, &k); format!("{bgp} BIND(?{ov} AS ?{k}) FILTER({t})") }
+                4 => { self.fresh += 1; let k = format!("ek{}", self.fresh); let t = truth(self, &ov); format!("{bgp} BIND({t} AS ?{k}) FILTER(?{k})") }
+                5 => { let t = truth(self, &ov); let inner = if self.r.chance(1, 2) { self.triple_pat(graph) } else { String::new() }; format!("{bgp} FILTER EXISTS {{ {inner} FILTER({t}) }}") }
+                _ => { let t = truth(self, &ov); format!("{bgp} FILTER NOT EXISTS {{ FILTER(!({t})) }}") }
+            };
+        }
+        let names: Vec<T> = self.quads.iter().filter_map(|q| q.3.clone()).collect::<BTreeSet<_>>().into_iter().collect();
+        let k = self.r.below(100);
+        let mut body = if depth >= 2 || k < 55 {
+            // triple patterns: none (the group is then decided by the outer variables alone), or a few
+            if self.r.chance(1, 6) { String::new() } else {
+                let n = *self.r.pick(&[1usize, 1, 1, 2, 2, 3]);
+                self.bnwit.clear();
+                (0..n).map(|_| if self.r.chance(1, 5) { let (p, w) = (self.r.ps(&["tag:p", "tag:q", "tag:n", "tag:s"]), self.var());
+                        if self.r.chance(1, 2) { format!("?{ov} <{p}> ?{w}") } else { format!("?{w} <{p}> ?{ov}") } } else { self.triple_pat(graph) }).collect::<Vec<_>>().join(" . ")
+            }
+        } else if k < 75 {
+            match self.r.below(8) {
+                // the name of the graph is an outer variable (bound outside to a graph name, to something else, or unbound)
+                0 | 1 => { let inner_graph = match self.wit.iter().find(|(w, _)| *w == ov) { Some((_, t)) if names.contains(t) => Some(t.clone()), _ => Some(ti("tag:g1")) }; format!("GRAPH ?{ov} {{ {} }}", self.exists_group(depth + 1, &inner_graph)) }
+                2 | 3 if !names.is_empty() => { let n = self.r.pick(&names).clone(); let v = self.var_for(&n); format!("GRAPH ?{v} {{ {} }}", self.exists_group(depth + 1, &Some(n))) }
+                4 | 5 => { let n = if names.is_empty() || self.r.chance(1, 4) { ti(self.r.ps(&["tag:g1", "tag:g2", "tag:absent"])) } else { self.r.pick(&names).clone() };
+                           let n = if has_bnode(&n) { ti("tag:g1") } else { n }; format!("GRAPH {} {{ {} }}", n.sparql(false), self.exists_group(depth + 1, &Some(n.clone()))) }
+                _ => format!("GRAPH ?exg {{ {} }}", self.exists_group(depth + 1, &Some(ti("tag:g1")))),
+            }
+        } else if k < 90 { format!("{{ {} }} UNION {{ {} }}", self.exists_group(depth + 1, graph), self.exists_group(depth + 1, graph)) }
+        else { format!("{{ {} }}", self.exists_group(depth + 1, graph)) };
+        // BIND over an outer variable, to a fresh variable, then tested
+        if self.r.chance(1, 4) {
+            self.fresh += 1; let t = format!("ek{}", self.fresh);
+            let safe = !self.unsafe_vars.contains(&ov);
+            let e = match self.r.below(5) { 0 | 1 if safe => self.arith(&ov), 2 => format!("?{ov}"), 3 => format!("BOUND(?{ov})"), _ => if safe { format!("?{ov} < {}", self.int_const()) } else { format!("sameTerm(?{ov}, ?{})", self.var()) } };
+            if e == format!("?{ov}") && !safe { self.unsafe_vars.insert(t.clone()); }
+            body = format!("{body} BIND({e} AS ?{t})");
+            if self.r.chance(3, 4) { let f = self.atom_expr(&t); body = format!("{body} FILTER({f})"); }
+        }
+        if self.r.chance(3, 5) { let e = self.correlated_expr(&ov, &outer); body = format!("{body} FILTER({e})"); }
+        // a nested EXISTS: its group sees the variables of BOTH enclosing groups
+        if depth < 2 && self.r.chance(1, 4) { let inner = self.exists_group(depth + 1, graph); body = format!("{body} FILTER {}EXISTS {{ {inner} }}", self.r.ps(&["", "NOT "])); }
+        if self.r.chance(1, 8) { let o2 = self.outer_var(&outer); let e = self.correlated_expr(&o2, &outer); body = format!("{body} FILTER({e})"); }
+        body
+    }
+    fn filter_expr(&mut self, graph: &Option<T>) -> String {
         let v = self.var();
+        if self.r.chance(1, 6) { // EXISTS / NOT EXISTS over a GROUP (FILTER, BIND, nested EXISTS, GRAPH inside), alone or under a connective
+            let g = self.exists_group(0, graph);
+            let e = format!("{}EXISTS {{ {g} }}", self.r.ps(&["", "NOT "]));
+            return match self.r.below(6) { 0 => { let a = self.atom_expr(&v); format!("({a}) {} {e}", self.r.ps(&["||", "&&"])) } 1 => format!("!({e})"), _ => e };
+        }
         match self.r.below(10) {
             0 => { let w = self.var(); format!("BOUND(?{v}) {} {}BOUND(?{w})", self.r.ps(&["||", "&&"]), self.r.ps(&["", "!"])) }
             1 => format!("!({})", self.atom_expr(&v)),
@@ -770,9 +971,10 @@ impl<'a> Gen<'a> {
             _ => self.atom_expr(&v),
         }
     }
-    fn bind_expr(&mut self, target: &str) -> String {
+    fn bind_expr(&mut self, target: &str, graph: &Option<T>) -> String {
         let v = self.var();
         let safe = !self.unsafe_vars.contains(&v);
+        if self.r.chance(1, 10) { let g = self.exists_group(0, graph); return format!("{}EXISTS {{ {g} }}", self.r.ps(&["", "NOT "])) }
         match self.r.below(8) {
             0 => self.int_const(),
             1 => format!("<{}>", self.r.ps(&["tag:a", "tag:g1"])),
@@ -814,16 +1016,36 @@ impl<'a> Gen<'a> {
             let tail = if self.r.chance(1, 12) { format!(" LIMIT {}", self.r.below(3)) } else { String::new() };
             format!("{{ SELECT {}{proj} WHERE {{ {inner} }}{tail} }}", if self.r.chance(1, 3) { "DISTINCT " } else { "" })
         } else { format!("{{ {} }}", self.group(depth + 1, graph)) };
-        if self.r.chance(3, 10) { let e = self.filter_expr(); body = format!("{body} FILTER({e})"); }
-        if self.r.chance(1, 5) { let t = self.bind_target(); let e = self.bind_expr(&t); body = format!("{body} BIND({e} AS ?{t})"); self.wit.push((t, ti("tag:none"))); }
-        if self.r.chance(1, 12) { let e = self.filter_expr(); body = format!("{body} FILTER({e})"); }
+        if self.r.chance(3, 10) { let e = self.filter_expr(graph); body = format!("{body} FILTER({e})"); }
+        if self.r.chance(1, 5) { let t = self.bind_target(); let e = self.bind_expr(&t, graph); body = format!("{body} BIND({e} AS ?{t})"); self.wit.push((t, ti("tag:none"))); }
+        if self.r.chance(1, 12) { let e = self.filter_expr(graph); body = format!("{body} FILTER({e})"); }
         body
+    }
+    /// the stream `random-exists`: a plain BGP (in the default graph or inside GRAPH) whose solutions are tested by ONE
+    /// [NOT] EXISTS over a group -- in FILTER, under a connective, in BIND or in a SELECT expression
+    fn exists_query(&mut self) -> String {
+        let names: Vec<T> = self.quads.iter().filter_map(|q| q.3.clone()).collect::<BTreeSet<_>>().into_iter().collect();
+        let graph: Option<T> = if !names.is_empty() && self.r.chance(1, 3) { Some(self.r.pick(&names).clone()) } else { None };
+        let n = *self.r.pick(&[1usize, 1, 2, 2, 3]);
+        self.bnwit.clear();
+        let bgp = (0..n).map(|_| self.triple_pat(&graph)).collect::<Vec<_>>().join(" . ");
+        let g = self.exists_group(0, &graph);
+        let e = format!("{}EXISTS {{ {g} }}", self.r.ps(&["", "NOT "]));
+        let (mut body, mut proj) = (String::new(), "*".to_string());
+        match self.r.below(8) {
+            0 => { let v = self.var(); let a = self.atom_expr(&v); body = format!("{bgp} FILTER(({a}) {} {e})", self.r.ps(&["||", "&&"])) }
+            1 => body = format!("{bgp} BIND({e} AS ?k1)"),
+            2 => { body = bgp.clone(); let vs: BTreeSet<String> = (0..self.r.range(1, 3)).map(|_| format!("?{}", self.var())).collect(); proj = format!("{} ({e} AS ?kk)", vs.into_iter().collect::<Vec<_>>().join(" ")) }
+            _ => body = format!("{bgp} FILTER({e})"),
+        }
+        if let Some(n) = &graph { body = if has_bnode(n) || self.r.chance(1, 2) { let v = self.var_for(n); format!("GRAPH ?{v} {{ {body} }}") } else { format!("GRAPH {} {{ {body} }}", n.sparql(false)) } }
+        if self.r.chance(1, 6) { format!("ASK {{ {body} }}") } else { format!("SELECT {}{proj} WHERE {{ {body} }}", if self.r.chance(1, 5) { "DISTINCT " } else { "" }) }
     }
     fn query(&mut self) -> String {
         let body = self.group(0, &None);
         if self.r.chance(1, 5) { return format!("ASK {{ {body} }}") }
         let mut proj = if self.r.chance(1, 2) { "*".to_string() } else { (0..self.r.range(1, 4)).map(|_| format!("?{}", self.var())).collect::<BTreeSet<_>>().into_iter().collect::<Vec<_>>().join(" ") };
-        if proj != "*" && self.r.chance(1, 4) { let e = self.bind_expr("kk"); proj = format!("{proj} ({e} AS ?kk)"); }
+        if proj != "*" && self.r.chance(1, 4) { let e = self.bind_expr("kk", &None); proj = format!("{proj} ({e} AS ?kk)"); }
         let mut q = format!("SELECT {}{proj} WHERE {{ {body} }}", if self.r.chance(1, 4) { "DISTINCT " } else { "" });
         let ordered = self.r.chance(1, 10);
         if ordered { q.push_str(&format!(" ORDER BY ?{}", self.var())); }
@@ -928,6 +1150,63 @@ fn directed() -> Vec<(&'static str, usize, String)> {
         ("order-over-nested-slice", 1, "SELECT DISTINCT * { { ?s <tag:p> ?o } UNION { { SELECT ?g { GRAPH ?g { } BIND(?x AS ?k1) } LIMIT 0 } } BIND(<tag:g1> AS ?k2) } ORDER BY DESC(?s)".into()),
         ("order-over-nested-slice", 1, "SELECT * { GRAPH ?g { { ?s <tag:p> ?o } UNION { { SELECT ?g { ?s <tag:q> ?o } LIMIT 1 } BIND(1 AS ?k1) } } } ORDER BY ?o".into()),
         ("order-over-nested-slice", 1, "SELECT * { GRAPH ?g { { ?s <tag:p> ?o } UNION { { SELECT ?g { ?s <tag:q> ?o } LIMIT 1 } BIND(1 AS ?k1) } } } ORDER BY DESC(?o)".into()),
+        // EXISTS over a GROUP (18.6, substitution): FILTER / BIND / nested EXISTS / GRAPH inside the group refer to variables
+        // of the enclosing group that occur in none of the group's triple patterns; in the default graph and inside GRAPH;
+        // outer variable bound and unbound; EXISTS in FILTER, under connectives, in BIND and in a SELECT expression
+        ("exists-correlated", 2, "SELECT ?x { ?x <tag:n> ?a FILTER EXISTS { ?x <tag:p> ?y . ?y <tag:n> ?b FILTER(?b > ?a) } }".into()),
+        ("exists-correlated", 2, "SELECT ?x { ?x <tag:n> ?a FILTER NOT EXISTS { ?x <tag:p> ?y . ?y <tag:n> ?b FILTER(?b < ?a) } }".into()),
+        ("exists-correlated", 2, "SELECT ?x { ?x <tag:s> ?n FILTER EXISTS { ?x <tag:p> ?y FILTER(?n = \"a\") } }".into()),
+        ("exists-correlated", 2, "SELECT ?x { ?x <tag:s> ?n FILTER NOT EXISTS { ?x <tag:p> ?y FILTER(?n != \"a\") } }".into()),
+        ("exists-correlated", 2, "SELECT ?x { ?x <tag:n> ?a FILTER EXISTS { ?x <tag:p> ?y BIND(?a + 1 AS ?c) FILTER(?c = 31) } }".into()),
+        ("exists-correlated", 2, "SELECT ?x { ?x <tag:n> ?a FILTER EXISTS { ?x <tag:p> ?y BIND(?a AS ?c) FILTER(sameTerm(?c, 25)) } }".into()),
+        ("exists-correlated", 2, "SELECT ?x { ?x <tag:n> ?a FILTER EXISTS { ?y <tag:n> 35 FILTER EXISTS { ?x <tag:p> ?y } } }".into()),
+        ("exists-correlated", 2, "SELECT ?x { ?x <tag:n> ?a FILTER NOT EXISTS { ?y <tag:n> ?b FILTER NOT EXISTS { ?x <tag:p> ?y } FILTER(?b > ?a) } }".into()),
+        ("exists-correlated", 2, "SELECT ?x { ?x <tag:n> ?a FILTER EXISTS { ?y <tag:s> ?n FILTER EXISTS { ?y <tag:n> ?b FILTER(?b > ?a) } } }".into()),
+        ("exists-correlated", 2, "SELECT ?x { ?x <tag:n> ?a FILTER EXISTS { FILTER(?a > 26) } }".into()),
+        ("exists-correlated", 2, "SELECT ?x { ?x <tag:n> ?a FILTER NOT EXISTS { FILTER(?a > 26) } }".into()),
+        ("exists-correlated", 2, "SELECT ?x { ?x <tag:n> ?a FILTER EXISTS { BIND(?a * 2 AS ?d) FILTER(?d = 50) } }".into()),
+        ("exists-correlated", 2, "SELECT ?x { { ?x <tag:n> ?a } UNION { ?x <tag:s> ?n } FILTER EXISTS { ?x <tag:p> ?y FILTER(BOUND(?a)) } }".into()),
+        ("exists-correlated", 2, "SELECT ?x { { ?x <tag:n> ?a } UNION { ?x <tag:s> ?n } FILTER EXISTS { ?x <tag:p> ?y FILTER(!BOUND(?a)) } }".into()),
+        ("exists-correlated", 2, "SELECT ?x { { ?x <tag:n> ?a } UNION { ?x <tag:s> ?n } FILTER NOT EXISTS { ?x <tag:p> ?y FILTER(?a > 26) } }".into()),
+        ("exists-correlated", 2, "SELECT ?x { ?x <tag:n> ?a FILTER EXISTS { { ?x <tag:p> ?y FILTER(?a > 26) } UNION { ?y <tag:p> ?x FILTER(?a < 26) } } }".into()),
+        ("exists-correlated", 2, "SELECT ?x { ?x <tag:n> ?a FILTER(?a > 100 || EXISTS { ?x <tag:p> ?y . ?y <tag:n> ?b FILTER(?b - ?a = 10) }) }".into()),
+        ("exists-correlated", 2, "SELECT ?x { ?x <tag:n> ?a FILTER(!(EXISTS { ?x <tag:p> ?y . ?y <tag:n> ?b FILTER(?b - ?a = 10) })) }".into()),
+        ("exists-correlated", 2, "SELECT ?x ?e { ?x <tag:n> ?a BIND(EXISTS { ?x <tag:p> ?y . ?y <tag:n> ?b FILTER(?b > ?a) } AS ?e) }".into()),
+        ("exists-correlated", 2, "SELECT ?x (EXISTS { ?x <tag:p> ?y . ?y <tag:n> ?b FILTER(?b < ?a) } AS ?e) { ?x <tag:n> ?a }".into()),
+        ("exists-correlated", 2, "ASK { ?x <tag:n> ?a FILTER EXISTS { ?x <tag:p> ?y . ?y <tag:n> ?b FILTER(?b = ?a + 5) } }".into()),
+        ("exists-correlated", 2, "ASK { ?x <tag:n> ?a FILTER EXISTS { ?x <tag:p> ?y . ?y <tag:n> ?b FILTER(?b = ?a + 6) } }".into()),
+        ("exists-correlated-graph", 2, "SELECT ?x { ?x <tag:n> ?a FILTER EXISTS { GRAPH ?eg { ?x <tag:n> ?b } FILTER(?b = ?a) } }".into()),
+        ("exists-correlated-graph", 2, "SELECT ?x { ?x <tag:n> ?a FILTER EXISTS { GRAPH ?eg { ?x <tag:n> ?b FILTER(?b = ?a) } } }".into()),
+        ("exists-correlated-graph", 2, "SELECT ?x { ?x <tag:n> ?a FILTER EXISTS { GRAPH <tag:g2> { ?x <tag:n> ?b FILTER(?b < ?a) } } }".into()),
+        ("exists-correlated-graph", 2, "SELECT * { GRAPH ?g { ?x <tag:n> ?a FILTER EXISTS { ?x <tag:q> ?y FILTER(?a > 10) } } }".into()),
+        ("exists-correlated-graph", 2, "SELECT * { GRAPH ?g { ?x <tag:n> ?a FILTER NOT EXISTS { ?x <tag:q> ?y FILTER(?a > 10) } } }".into()),
+        ("exists-correlated-graph", 2, "SELECT * { GRAPH <tag:g1> { ?x <tag:n> ?a FILTER EXISTS { ?x <tag:q> ?y BIND(?a - 30 AS ?z) FILTER(?z = 0) } } }".into()),
+        ("exists-correlated-graph", 2, "SELECT * { GRAPH ?g { ?x <tag:n> ?a FILTER EXISTS { ?x <tag:q> ?y FILTER EXISTS { ?y <tag:p> ?w FILTER(?a = 30) } } } }".into()),
+        ("exists-correlated-graph", 1, "SELECT * { GRAPH ?g { ?s <tag:q> ?h FILTER EXISTS { GRAPH ?h { ?s <tag:p> ?o } } } }".into()),
+        ("exists-correlated-graph", 1, "SELECT * { GRAPH ?g { ?s <tag:q> ?h } FILTER EXISTS { GRAPH ?h { ?s <tag:p> ?o } } }".into()),
+        ("exists-correlated-graph", 1, "SELECT * { GRAPH ?g { ?s <tag:q> ?h } FILTER EXISTS { GRAPH ?h { ?s <tag:p> ?o FILTER(?g = <tag:g2>) } } }".into()),
+        ("exists-correlated-graph", 1, "SELECT * { GRAPH ?g { ?s <tag:q> ?h } FILTER EXISTS { GRAPH ?g { ?s <tag:p> ?o } FILTER(sameTerm(?h, <tag:g1>)) } }".into()),
+        ("exists-correlated-graph", 1, "SELECT * { ?s <tag:p> ?o FILTER EXISTS { GRAPH ?o { ?s <tag:p> ?z } } }".into()),
+        ("exists-correlated-graph", 1, "SELECT * { ?s <tag:p> ?o FILTER EXISTS { GRAPH ?u { ?s <tag:p> ?z FILTER(?o = <tag:b>) } } }".into()),
+        // comparisons whose operands are COMPUTED: integer arithmetic that leaves the isize range and comes back
+        ("computed-compare", 2, "SELECT ?x { ?x <tag:n> ?a . <tag:t0> <tag:n> ?s0 . <tag:t1> <tag:n> ?s1 FILTER(?s1 - ?s0 = ?a) }".into()),
+        ("computed-compare", 2, "SELECT ?x { ?x <tag:n> ?a . <tag:t0> <tag:n> ?s0 . <tag:t1> <tag:n> ?s1 FILTER(?a != ?s1 - ?s0) }".into()),
+        ("computed-compare", 2, "SELECT ?x { ?x <tag:n> ?a . <tag:t0> <tag:n> ?s0 . <tag:t1> <tag:n> ?s1 FILTER(?a < ?s1 - ?s0) }".into()),
+        ("computed-compare", 2, "SELECT ?x { ?x <tag:n> ?a . <tag:t0> <tag:n> ?s0 . <tag:t1> <tag:n> ?s1 FILTER(?s1 - ?s0 <= ?a) }".into()),
+        ("computed-compare", 2, "SELECT ?x { ?x <tag:n> ?a . <tag:t0> <tag:n> ?s0 . <tag:t1> <tag:n> ?s1 FILTER(?a > ?s1 - ?s0) }".into()),
+        ("computed-compare", 2, "SELECT ?x { ?x <tag:n> ?a . <tag:t0> <tag:n> ?s0 . <tag:t1> <tag:n> ?s1 FILTER(?s1 - ?s0 >= ?a) }".into()),
+        ("computed-compare", 2, "SELECT ?x { ?x <tag:n> ?a . <tag:t0> <tag:n> ?s0 . <tag:t2> <tag:n> ?s2 FILTER(?s0 + ?s2 < ?a - 29) }".into()),
+        ("computed-compare", 2, "SELECT ?x { ?x <tag:n> ?a . <tag:t0> <tag:n> ?s0 FILTER(?s0 * 0 = ?a - 30) }".into()),
+        ("computed-compare", 2, "SELECT ?x { ?x <tag:n> ?a . <tag:t0> <tag:n> ?s0 FILTER(sameTerm((?a + ?s0) - ?s0, ?a)) }".into()),
+        ("computed-compare", 2, "SELECT ?x { ?x <tag:n> ?a . <tag:t0> <tag:n> ?s0 FILTER((?a + ?s0) - ?s0 = (?a - ?s0) + ?s0) }".into()),
+        ("computed-compare", 2, "SELECT ?x ?d { ?x <tag:n> ?a . <tag:t0> <tag:n> ?s0 . <tag:t1> <tag:n> ?s1 BIND(?s1 - ?s0 AS ?d) FILTER(?d = ?a) }".into()),
+        ("computed-compare", 2, "SELECT ?x (?s1 - ?s0 = ?a AS ?e) (?s1 - ?s0 > ?a AS ?f) { ?x <tag:n> ?a . <tag:t0> <tag:n> ?s0 . <tag:t1> <tag:n> ?s1 }".into()),
+        ("computed-compare", 2, "SELECT ?x { ?x <tag:n> ?a FILTER((9223372036854775807 + ?a) - 9223372036854775807 = ?a) }".into()),
+        ("computed-compare", 2, "SELECT ?x { ?x <tag:n> ?a FILTER(-(-(?a - 9223372036854775807 - 2)) < ?a) }".into()),
+        ("computed-compare", 2, "SELECT ?x { ?x <tag:n> ?a FILTER(ABS(?a - 18446744073709551616) - 18446744073709551616 <= 0 - ?a) }".into()),
+        ("computed-compare", 1, "SELECT ?x { <tag:a> <tag:n> ?x FILTER(-(-?x) = ?x) }".into()),
+        ("computed-compare", 1, "SELECT ?x { <tag:a> <tag:n> ?x FILTER((ABS(?x) - 1) + ?x < 0) }".into()),
+        ("computed-compare", 1, "SELECT ?x { <tag:a> <tag:n> ?x FILTER((ABS(?x) - 1) = 9223372036854775807) }".into()),
         // nested OFFSET / LIMIT whose window the oracle can determine: everything, nothing, identical solutions
         ("nested-slice", 1, "SELECT * { { ?s <tag:q> ?o } UNION { { SELECT ?s { ?s <tag:p> ?o } LIMIT 0 } } }".into()),
         ("nested-slice", 1, "SELECT * { { ?s <tag:q> ?o } UNION { { SELECT ?s { ?s <tag:p> ?o } LIMIT 7 } } }".into()),
@@ -946,7 +1225,16 @@ fn directed_datasets() -> Vec<Vec<Quad4>> {
     d1.push((ti("tag:c"), ti("tag:c"), ti("tag:c"), None));
     d1.push((ttr(ti("tag:a"), ti("tag:p"), ti("tag:b")), ti("tag:q"), ttr(ti("tag:c"), ti("tag:p"), ti("tag:c")), None));
     d1.push((ti("tag:b"), ti("tag:v"), T::Lang("lit".into(), "en".into()), None));
-    vec![d0, d1]
+    // d2: people with ages, names and edges; two named graphs repeating / changing some of it; three integers beyond isize
+    let n = |s: &str, v: &str, g: &Option<T>| (ti(s), ti("tag:n"), tint(v), g.clone());
+    let e = |s: &str, p: &str, o: &str, g: &Option<T>| (ti(s), ti(p), ti(o), g.clone());
+    let d2 = vec![n("tag:a", "30", &None), n("tag:b", "25", &None), n("tag:c", "35", &None),
+        e("tag:a", "tag:p", "tag:b", &None), e("tag:a", "tag:p", "tag:c", &None), e("tag:b", "tag:p", "tag:c", &None),
+        (ti("tag:a"), ti("tag:s"), tstr("a"), None), (ti("tag:b"), ti("tag:s"), tstr("b"), None), (ti("tag:c"), ti("tag:s"), tstr("lit"), None),
+        n("tag:t0", "100000000000000000000", &None), n("tag:t1", "100000000000000000030", &None), n("tag:t2", "-100000000000000000000", &None),
+        e("tag:a", "tag:q", "tag:b", &g1), n("tag:a", "30", &g1), e("tag:b", "tag:p", "tag:c", &g1),
+        e("tag:b", "tag:q", "tag:c", &g2), n("tag:b", "7", &g2)];
+    vec![d0, d1, d2]
 }
 
 fn canon_rows(vars: &[String], rows: &[Vec<Option<T>>]) -> Vec<Vec<(String, T)>> {
@@ -965,13 +1253,57 @@ fn sub_multiset<X: Ord + Clone>(a: &[X], b: &[X]) -> bool {
     while i < a.len() { while j < b.len() && b[j] < a[i] { j += 1 } if j >= b.len() || b[j] != a[i] { return false } i += 1; j += 1; }
     true
 }
+/// the shapes of the EXISTS groups of a query (for the input distribution)
+fn tp_vars(t: &TP, out: &mut BTreeSet<String>) { match t { TP::Var(v) => { out.insert(v.clone()); } TP::Trip(b) => b.iter().for_each(|x| tp_vars(x, out)), _ => {} } }
+fn ex_vars(e: &Ex, out: &mut BTreeSet<String>) {
+    match e { Ex::Var(v) | Ex::Bound(v) => { out.insert(v.clone()); } Ex::Not(a) | Ex::Un(_, a) => ex_vars(a, out), Ex::Or(a, b) | Ex::And(a, b) | Ex::Bin(_, a, b) => { ex_vars(a, out); ex_vars(b, out) } _ => {} }
+}
+fn ex_exists<'a>(e: &'a Ex, out: &mut Vec<&'a Pat>) {
+    match e { Ex::Exists(p) => out.push(p), Ex::Not(a) | Ex::Un(_, a) => ex_exists(a, out), Ex::Or(a, b) | Ex::And(a, b) | Ex::Bin(_, a, b) => { ex_exists(a, out); ex_exists(b, out) } _ => {} }
+}
+/// (variables of the triple patterns, variables of the FILTER / BIND expressions outside nested EXISTS, nested EXISTS groups, has GRAPH, has BIND)
+fn group_shape<'a>(p: &'a Pat, tv: &mut BTreeSet<String>, ev: &mut BTreeSet<String>, nested: &mut Vec<&'a Pat>, flags: &mut (bool, bool, bool)) {
+    match p {
+        Pat::Bgp(ps) => ps.iter().for_each(|t| t.iter().for_each(|x| tp_vars(x, tv))),
+        Pat::Filter(e, i) => { flags.2 = true; ex_vars(e, ev); ex_exists(e, nested); group_shape(i, tv, ev, nested, flags) }
+        Pat::Extend(i, _, e) => { flags.1 = true; ex_vars(e, ev); ex_exists(e, nested); group_shape(i, tv, ev, nested, flags) }
+        Pat::Union(l, r) => { group_shape(l, tv, ev, nested, flags); group_shape(r, tv, ev, nested, flags) }
+        Pat::Graph(n, i) => { flags.0 = true; if let NP::Var(v) = n { tv.insert(v.clone()); } group_shape(i, tv, ev, nested, flags) }
+        Pat::OrderBy(i, _) | Pat::Project(i, _) | Pat::Distinct(i) | Pat::Slice(i, _, _) => group_shape(i, tv, ev, nested, flags),
+        Pat::Unsup(_) => {}
+    }
+}
+fn exists_shapes(p: &Pat, inside_graph: bool, depth: usize, out: &mut BTreeSet<String>) {
+    let mut here: Vec<&Pat> = vec![];
+    match p {
+        Pat::Filter(e, i) => { ex_exists(e, &mut here); exists_shapes(i, inside_graph, depth, out) }
+        Pat::Extend(i, _, e) => { let n = here.len(); ex_exists(e, &mut here); if here.len() > n { out.insert("exists:in-BIND-or-SELECT-expression".into()); } exists_shapes(i, inside_graph, depth, out) }
+        Pat::Union(l, r) => { exists_shapes(l, inside_graph, depth, out); exists_shapes(r, inside_graph, depth, out) }
+        Pat::Graph(_, i) => exists_shapes(i, true, depth, out),
+        Pat::OrderBy(i, _) | Pat::Project(i, _) | Pat::Distinct(i) | Pat::Slice(i, _, _) => exists_shapes(i, inside_graph, depth, out),
+        Pat::Bgp(_) | Pat::Unsup(_) => {}
+    }
+    for q in here {
+        let (mut tv, mut ev, mut nested, mut flags) = (BTreeSet::new(), BTreeSet::new(), vec![], (false, false, false));
+        group_shape(q, &mut tv, &mut ev, &mut nested, &mut flags);
+        out.insert(if depth == 0 { "exists:any".into() } else { "exists:nested".to_string() });
+        if inside_graph { out.insert("exists:evaluated-inside-GRAPH".into()); }
+        if flags.0 { out.insert("exists:group-with-GRAPH".into()); }
+        if flags.1 { out.insert("exists:group-with-BIND".into()); }
+        if flags.2 { out.insert("exists:group-with-FILTER".into()); }
+        if ev.iter().any(|v| !tv.contains(v)) { out.insert("exists:FILTER/BIND-of-the-group-uses-a-variable-absent-from-its-triple-patterns".into()); }
+        for n in &nested { let (mut tv2, mut ev2, mut n2, mut f2) = (BTreeSet::new(), BTreeSet::new(), vec![], (false, false, false)); group_shape(n, &mut tv2, &mut ev2, &mut n2, &mut f2);
+            if tv2.iter().chain(ev2.iter()).any(|v| !tv.contains(v)) { out.insert("exists:nested-group-uses-a-variable-absent-from-the-enclosing-group's-triple-patterns".into()); } }
+        exists_shapes(q, inside_graph, depth + 1, out);
+    }
+}
 fn collect_ops(p: &Pat, out: &mut BTreeSet<&'static str>) {
     match p {
         Pat::Bgp(ps) => { out.insert(match ps.len() { 0 => "bgp0", 1 => "bgp1", _ => "bgp2+" }); for t in ps { for x in t { match x { TP::Bn(_) => { out.insert("bnode-placeholder"); } TP::Trip(_) => { out.insert("quoted-pattern"); } _ => {} } } } }
         Pat::Filter(_, i) => { out.insert("filter"); collect_ops(i, out) }
         Pat::Union(l, r) => { out.insert("union"); collect_ops(l, out); collect_ops(r, out) }
         Pat::Graph(NP::Const(_), i) => { out.insert("graph-const"); collect_ops(i, out) }
-        Pat::Graph(NP::Var(_), i) => { out.insert("graph-var"); collect_ops(i, out) }
+        Pat::Graph(NP::Var(_), i) | Pat::Graph(NP::Term(_), i) => { out.insert("graph-var"); collect_ops(i, out) }
         Pat::Extend(i, _, _) => { out.insert("extend"); collect_ops(i, out) }
         Pat::OrderBy(i, _) => { out.insert("order-by"); collect_ops(i, out) }
         Pat::Project(i, _) => { out.insert("project"); collect_ops(i, out) }
@@ -985,7 +1317,7 @@ fn main() {
     let a = parse_args();
     std::panic::set_hook(Box::new(|_| {}));
     let mut sum = Summary::default();
-    sum.rule = "case = (dataset: default graph + 0..3 named graphs (one named by a blank node) sharing triples drawn from a pool with integers incl. isize::MIN/MAX, big and ill-typed ones, strings, booleans, decimals, doubles, dateTime, custom datatypes, language tags in both cases, quoted triples; query from the supported grammar: <= 4 triple patterns per BGP with repeated variables, blank node placeholders, quoted triple patterns, nested UNION / GRAPH (constant, variable, absent name) / FILTER (comparisons, BOUND, sameTerm, type errors) / BIND / sub-select / DISTINCT / projection / ORDER BY / OFFSET-LIMIT, or one of the directed queries incl. every unsupported operator); \
+    sum.rule = "case = (dataset: default graph + 0..3 named graphs (one named by a blank node) sharing triples drawn from a pool with integers incl. isize::MIN/MAX, big and ill-typed ones, strings, booleans, decimals, doubles, dateTime, custom datatypes, language tags in both cases, quoted triples; query from the supported grammar: <= 4 triple patterns per BGP with repeated variables, blank node placeholders, quoted triple patterns, nested UNION / GRAPH (constant, variable, absent name) / FILTER (comparisons, BOUND, sameTerm, type errors) / BIND / sub-select / DISTINCT / projection / ORDER BY / OFFSET-LIMIT, [NOT] EXISTS (in FILTER, under connectives, in BIND and SELECT expressions) over GROUPS with FILTER / BIND / nested EXISTS / GRAPH that read variables of the enclosing group absent from the group's triple patterns (18.6 substitution; oracle by carrying the substitution out), comparisons over integer arithmetic that leaves the isize range and comes back; a second random stream of one BGP tested by one EXISTS group; or one of the directed queries incl. every unsupported operator); \
 non-trivial = the engine returned at least one row / true, or an error was expected; distinct = distinct (query text, dataset)".into();
     let base = Rng::new(a.seed);
     let dir = directed();
@@ -1004,13 +1336,14 @@ non-trivial = the engine returned at least one row / true, or an error was expec
         model_data.push(it);
         stores.push(d);
     }
-    let mut header = String::from("From Sophia.C13 Require Import Model Eval.\n");
+    let mut header = String::from("From Sophia.C13 Require Import Model Eval Exists.\n");
     for (k, q) in model_data.iter().enumerate() {
         header.push_str(&format!("Definition d{k} : dataset := {}.\n", coq_list(q.iter().map(|(s, p, o, g)| format!("(({}, {}, {}), {})", s.coq(), p.coq(), o.coq(), coq_opt(g.as_ref().map(|g| g.coq())))))));
     }
     let mut cases = vec![];
     let mut seen = HashSet::new();
-    let total = dir.len() + a.n;
+    let n_exists = a.n / 4;   // the stream `random-exists` comes after the random one
+    let total = dir.len() + a.n + n_exists;
     let range: Vec<usize> = match a.only { Some(i) => vec![i], None => (0..total).collect() };
     for idx in range {
         EXOTIC_OPERAND.with(|f| f.set(false));
@@ -1019,7 +1352,7 @@ non-trivial = the engine returned at least one row / true, or an error was expec
             let di = r.below(datasets.len());
             let upper = r.chance(1, 3);
             let mut g = Gen { r: &mut r, quads: &datasets[di], unsafe_vars: BTreeSet::new(), upper, wit: vec![], bn: 0, bnwit: vec![], fresh: 0 };
-            ("random", di, g.query())
+            if idx >= dir.len() + a.n { ("random-exists", di, g.exists_query()) } else { ("random", di, g.query()) }
         };
         let ds = Ds { quads: datasets[di].clone() };
         let (obs, dbg) = run_engine(&stores[di], &text);
@@ -1062,13 +1395,30 @@ non-trivial = the engine returned at least one row / true, or an error was expec
                 }
             }
         }
+        if let (Some(p), false) = (pat, expect_err) {
+            let mut sh = BTreeSet::new(); exists_shapes(p, false, 0, &mut sh);
+            if !sh.is_empty() {
+                let exotic_before = EXOTIC_OPERAND.with(|f| f.get());
+                if let Ok((good, _)) = eval_top(p, &ds) {
+                    BGP_ONLY_SUBSTITUTION.with(|f| f.set(true));
+                    let bad = eval_top(p, &ds);
+                    BGP_ONLY_SUBSTITUTION.with(|f| f.set(false));
+                    if std::env::var("C13_DEBUG").is_ok() && label.starts_with("random") { eprintln!("EXISTS-CASE {idx} good={} bad={:?} :: {text}", good.len(), bad.as_ref().map(|b| b.0.len())); }
+                    if let Ok((bad, _)) = bad { let all: Vec<String> = good.iter().chain(bad.iter()).flat_map(|m| m.keys().cloned()).collect::<BTreeSet<_>>().into_iter().collect();
+                        if canon_mus(&all, &good) != canon_mus(&all, &bad) { sum.bump(&format!("exists:the-answer-depends-on-outer-variables-reaching-FILTER/BIND/nested-EXISTS ({})", if label.starts_with("random") { label } else { "directed" })); } }
+                }
+                EXOTIC_OPERAND.with(|f| f.set(exotic_before));
+            }
+        }
         sum.bump(&format!("stream:{label}"));
-        if let Some(p) = pat { let mut ops = BTreeSet::new(); collect_ops(p, &mut ops); for o in ops { sum.bump(&format!("op:{o}")) } }
+        if let Some(p) = pat { let mut ops = BTreeSet::new(); collect_ops(p, &mut ops); for o in ops { sum.bump(&format!("op:{o}")) }
+            let mut sh = BTreeSet::new(); exists_shapes(p, false, 0, &mut sh); for o in sh { sum.bump(&o) } }
         if seen.insert((text.clone(), di)) && nontrivial { sum.distinct_nontrivial += 1; }
         if sum.samples.len() < 6 && nontrivial && idx >= dir.len() { sum.samples.push(format!("case {idx} on d{di}: {text} => {}", match &obs { Obs::Rows(v, r) => format!("{} rows over {v:?}", r.len()), o => format!("{o:?}") })); }
         // ---------- Coq case ----------
         if EXOTIC_OPERAND.with(|f| f.replace(false)) { sum.bump("coq:skipped (an expression touched a decimal/float/double/dateTime/ill-formed operand: expression layer c13e)"); continue }
-        let Some(cq) = c_query(&q) else { sum.bump("coq:not-expressible"); continue };
+        // queries with EXISTS go to the model of coq/C13/Exists.v (checker wquery_ok), the others to Model.v / Eval.v
+        let (checker, cq) = match c_query(&q) { Some(cq) => ("query_ok", cq), None => match w_query(&q) { Some(wq) => { sum.bump("coq:with-EXISTS (Exists.v)"); ("wquery_ok", wq) } None => { sum.bump("coq:not-expressible"); continue } } };
         let observed = match &obs {
             Obs::Rows(vars, rows) => {
                 if rows.len() > 300 { sum.bump("coq:too-many-rows"); continue }
@@ -1087,7 +1437,7 @@ non-trivial = the engine returned at least one row / true, or an error was expec
             Obs::Panic(_) => "(OErr (Override [0;0]))".into(), // never equal to a model answer
             Obs::Parse(_) => unreachable!(),
         };
-        cases.push((idx, format!("query_ok d{di} {cq} {observed}")));
+        cases.push((idx, format!("{checker} d{di} {cq} {observed}")));
     }
     if a.only.is_none() {
         sum.shards = write_shards(&a.out, &header, &cases, a.shards);
